@@ -6,6 +6,9 @@ CONSTANTS
   Pids = {0, 2}
   MaxFiles = 1
   ExtraNext = 1
+  HVSet = {FALSE, TRUE}
+  HFSet = {FALSE}
+  ReuseSet = {FALSE}
   Emit = TRUE
   Mids = {"gro", "dump", "xyz", "pdb", "dlph"}
   ChainLen = 2
